@@ -37,7 +37,7 @@ MUTANTS = [
     ("M40", "helpers.py", "            if bottom.subnet_of(top):\n                break", "            if bottom.overlaps(top):\n                break", "C13 C03 C11"),
     ("M41", "address_base.py", "            if other_ipnet.subnet_of(self_ipnet):\n                return True\n            return False\n\n        # other=AddrGroup", "            if other_ipnet.overlaps(self_ipnet):\n                return True\n            return False\n\n        # other=AddrGroup", "C13"),
     ("M42", "addr_group.py", "                if other in item:\n                    return True\n            return False\n\n        if isinstance(other, AddrGroup):", "                if item in other:\n                    return True\n            return False\n\n        if isinstance(other, AddrGroup):", "C13"),
-    ("M43", "helpers.py", "    if not (tops and bottoms):\n        return False", "    if not tops:\n        return False", "C13 C03"),
+    ("M43", "helpers.py", "    if not (tops and bottoms):\n        return False", "    if not tops:\n        return False", "C03"),
     ("M30", "port.py", "            return [ports[0] - 1] if ports else [65535]", "            return [ports[0]] if ports else [65535]", "C08"),
     ("M31", "port.py", "            return [ports[-1] + 1] if ports else [1]", "            return [ports[1] + 1] if ports else [1]", "C08"),
     ("M32", "port.py", "        ports = sorted(ports)\n        if operator == \"eq\":", "        if operator == \"eq\":", "C08"),
